@@ -31,6 +31,7 @@ def scenarios(ctx):
         S.append("scn %s path %s" % (rng.choice(["udp", "tcp"]), o))
     for k in ["piggy", "separate", "dupack", "reset", "silent", "cancel"]:
         S.append("scn udp do " + k)
+    S.append("scn udp earlyrel 4")
     for k in ["ok", "silent"]:
         S.append("scn tcp do " + k)
     for n in [0, 1, 3, 6]:
@@ -171,10 +172,66 @@ def foreign_traces(ctx, art):
     return events, traces
 
 
+def race_lines(ctx):
+    if ctx.tier == "thorough":
+        return ["meet %d 400 40000" % ctx.seed, "meet %d 200 1200" % (ctx.seed + 1), "race %d 6000 6" % ctx.seed]
+    return ["meet %d 60 40000" % ctx.seed, "race %d 800 4" % ctx.seed]
+
+
+def race_run(ctx, exe, lines, tag="race"):
+    """harness/c12race under the race detector: release of the stored request (ACK / response / reset) against its
+    retransmission by the expiry sweep, arranged to meet; plus free-running traffic.  Returns the number of reports."""
+    import os
+    import re
+    import subprocess
+    inp = os.path.join(ctx.work, tag + ".in")
+    outp = os.path.join(ctx.work, tag + ".out")
+    open(inp, "w").write("\n".join(lines) + "\n")
+    if os.path.exists(outp):
+        os.remove(outp)
+    e = dict(os.environ, VERIF_IN=inp, VERIF_OUT=outp, GORACE="halt_on_error=0 history_size=2")
+    try:
+        p = subprocess.run([exe, "-test.run", "^TestC12Race$", "-test.timeout", "600s"], cwd=ctx.work, env=e,
+                           stdout=subprocess.PIPE, stderr=subprocess.STDOUT, text=True, timeout=700)
+    except subprocess.TimeoutExpired:
+        ctx.violations.append(common.Violation("ownership", "C12:race:hang", "the race harness did not finish: %s" % lines,
+                                               {"input": lines, "race": True}))
+        return 1
+    log = p.stdout
+    out = open(outp).read().splitlines() if os.path.exists(outp) else []
+    nrep = log.count("WARNING: DATA RACE")
+    if nrep:
+        funcs = sorted(set(re.findall(r"go-coap/v3/[\w/]+\.(\(\*?\w+\)\.\w+|\w+)\(", log)))[:8]
+        ctx.violations.append(common.Violation(
+            "ownership", "C12:data-race:" + "+".join(funcs)[:120],
+            "%d race detector reports while a stored request was released and retransmitted concurrently (a message is read or "
+            "written after its release): %s" % (nrep, ",".join(funcs)), {"input": lines, "race": True, "report": log[:4000]}))
+        return nrep
+    if p.returncode != 0 or len(out) != len(lines) or not all(o.startswith("ok ") for o in out):
+        first = next((x for x in log.splitlines() if x.startswith("panic:") or "fatal error" in x), "")
+        if first:
+            ctx.violations.append(common.Violation("ownership", "C12:race:crash", "the process crashed during concurrent release / "
+                                                   "retransmission: %s" % first[:200], {"input": lines, "race": True, "report": log[-4000:]}))
+            return 1
+        ctx.broken.append(("correspondence", "c12race failed rc=%d" % p.returncode, ("\n".join(out) + "\n" + log)[-1500:]))
+        return 0
+    ctx.cov["race_run"] = {"lines": lines, "results": out, "race_reports": 0}
+    for o in out:
+        for kv in o.split()[1:]:
+            k, v = kv.split("=")
+            ctx.count("race-" + k, int(v))
+    ctx.notes.append("race detector run (evidence, not proof): " + " | ".join(out))
+    return 0
+
+
 def run(ctx):
     art = common.standard_prepare(ctx, MODULES, hx=False, test=True, generated=[])
+    with common.Lock():
+        art["race"] = common.build_test(ctx, "c12race", race=True)
     if art.get("test"):
         explore(ctx, art)
+    if art.get("race"):
+        race_run(ctx, art["race"], race_lines(ctx))
     return common.finish(ctx)
 
 
@@ -184,6 +241,15 @@ def replay(ctx, rep):
     if not lines:
         print("replay file names no failing input:", rep.get("no_longer_checks"))
         return 1
+    if rep.get("race"):
+        with common.Lock():
+            exe = common.build_test(ctx, "c12race", race=True)
+        n = race_run(ctx, exe, lines, tag="race-replay") if exe else 0
+        for v in ctx.violations:
+            print(v.text if hasattr(v, "text") else v)
+        if n:
+            print("VIOLATION property=C12 replay=(replayed) still reproduces")
+        return 1 if n else 0
     impl = common.run_test_harness(ctx, art["test"], "TestC12", lines, tag="replay")
     jl = [l + " | " + o for l, o in zip(lines, impl)]
     rc, judge, _ = common.pipe_lines([art["driver"], "judge"], jl)
